@@ -221,6 +221,92 @@ def _rw(o, body):
         body(it)
 
 
+# ---- C07: toggles made from inside the constructor ----------------------------------------------------------------------
+@contract("api_objects.constraint_mode_in_ctor", ["C07"],
+          ["vsc.rand_obj._randobj.__call__", "vsc.impl.constraint_proxy.ConstraintProxy.constraint_mode",
+           "vsc.constraints.constraint_t.set_model", "vsc.constraints.constraint_t.constraint_mode"],
+          lambda tier, seed: [(order, where) for order in itertools.permutations(("plain", "relaxed", "plain2")) for where in ("top", "list", "sub")],
+          kind="bounded",
+          bound="a class whose constructor may switch one of its own blocks off (self.blk.constraint_mode(False) in __init__); "
+                "every construction order of {plain, relaxed, plain} instances, stand-alone / as list elements / as sub-objects; "
+                "each instance must enforce exactly its own enabled blocks, before and after later constructions and toggles")
+def c_constraint_mode_ctor(c, order, where):
+    import vsc
+
+    @vsc.randobj
+    class Item(object):
+        def __init__(self, relaxed=False):
+            self.a = vsc.rand_bit_t(8)
+            self.b = vsc.rand_bit_t(8)
+            if relaxed:
+                self.small_c.constraint_mode(False)
+
+        @vsc.constraint
+        def small_c(self):
+            self.a < 10
+
+        @vsc.constraint
+        def order_c(self):
+            self.b > self.a
+
+    @vsc.randobj
+    class Holder(object):
+        def __init__(self, items):
+            self.items = vsc.rand_list_t(Item())
+            for it in items:
+                self.items.append(it)
+
+    @vsc.randobj
+    class Parent(object):
+        def __init__(self, x, y, z):
+            self.x = vsc.rand_attr(x)
+            self.y = vsc.rand_attr(y)
+            self.z = vsc.rand_attr(z)
+    try:
+        objs = [(k, Item(relaxed=(k == "relaxed"))) for k in order]
+        if where == "list":
+            root = Holder([o for _, o in objs])
+            path = lambda it, i: it.items[i]
+        elif where == "sub":
+            root = Parent(*[o for _, o in objs])
+            path = lambda it, i: (it.x, it.y, it.z)[i]
+        else:
+            root = None
+
+        def small_enforced(i):
+            """exact probe: a == 200 is solvable iff small_c (a < 10) is not enforced on instance i"""
+            if root is None:
+                ok, e = _solves(lambda: _rw(objs[i][1], lambda it: it.a == 200))
+            else:
+                ok, e = _solves(lambda: _rw(root, lambda it: path(it, i).a == 200))
+            return not ok
+
+        def observe(tag, expect):
+            for i, (k, o) in enumerate(objs):
+                c.check("C07: an instance that switched a block off in its constructor has it off; every other instance of the "
+                        "class - built earlier or later, stand-alone, list element or sub-object - enforces it",
+                        small_enforced(i) == expect[i], info="%s order=%r where=%s instance %d (%s): enforced=%s want %s"
+                        % (tag, order, where, i, k, small_enforced(i), expect[i]))
+        expect = [k != "relaxed" for k in order]
+        observe("after construction", expect)
+        later = Item()
+        ok, e = _solves(lambda: _rw(later, lambda it: it.a == 200))
+        c.check("C07: an instance created after a constructor-time toggle starts with every block enabled", not ok)
+        # switch the relaxed instance's block back on, and a plain one off: still strictly per instance
+        ri = list(order).index("relaxed")
+        objs[ri][1].small_c.constraint_mode(True)
+        pi = list(order).index("plain2")
+        objs[pi][1].small_c.constraint_mode(False)
+        expect[ri], expect[pi] = True, False
+        observe("after toggles", expect)
+        (root or objs[0][1]).randomize()
+        for i, (k, o) in enumerate(objs):
+            if root is not None or i == 0:
+                c.check("C07: the remaining block (b > a) is enforced on every instance", int(o.b) > int(o.a), info=repr((int(o.a), int(o.b))))
+    except Exception as e:
+        c.check("C07: constructor-time toggles raise nothing", False, info="%s: %s" % (type(e).__name__, e))
+
+
 # ---- C07 --------------------------------------------------------------------------------------------------------------
 def c07_cases(tier, seed):
     toggles = [list(t) for t in itertools.product((False, True), repeat=3)]
